@@ -99,7 +99,10 @@ def _tlc(module, cfg_tmpl, consts, scen_file, workers, timeout=900):
                            text=True, timeout=timeout)
         out = p.stdout
     except subprocess.TimeoutExpired as e:
-        out = (e.stdout or "") + "\nTIMEOUT"
+        so = e.stdout or ""
+        if isinstance(so, bytes):          # (bytes even with text=True)
+            so = so.decode("utf-8", "replace")
+        out = so + "\nTIMEOUT"
     shutil.rmtree(work, ignore_errors=True)
     return out, time.time() - t0
 
